@@ -313,6 +313,14 @@ def r07_5(ck: Check) -> None:
         ck.ok("R07.5", "Serializable.serialize = bytes written by stream_serialize into a fresh buffer", "", s.fi.loc)
     else:
         ck.violated("R07.5", "Serializable.serialize = bytes written by stream_serialize into a fresh buffer", "serialize() changed shape", s.fi.loc)
+    s = ck.summ("skepticoin.serialization.Serializable.deserialize", 0)
+    spd = Spec(s, ("cls", "b"))
+    require_return(ck, "R07.5", s, spd, "cls.stream_deserialize(BytesIO(b))", "deserialize decodes from the first byte of exactly the bytes given")
+    seeks = [e for e in s.events if e.kind == "call" and e.parts and e.parts[0][0] == "a" and e.parts[0][2] == "seek"]
+    if all(e.term[2] == (C(0),) for e in seeks):
+        ck.ok("R07.5", "Serializable.deserialize starts at offset 0", "", s.fi.loc)
+    else:
+        ck.violated("R07.5", "Serializable.deserialize starts at offset 0", "seeks to %s" % [show(e.term) for e in seeks], s.fi.loc)
     # who supplies a pre-computed id to a constructor
     allowed = {DT + "Transaction.stream_deserialize", DT + "Block.stream_deserialize", "skepticoin.blockstore.BlockStore.read_blocks_from_disk"}
     suppliers = 0
